@@ -11,6 +11,7 @@ for id in $ids; do
   git -C /repo diff --quiet || { echo "/repo dirty, stopping"; exit 2; }
   prop=$(python3 -c "import json;print(json.load(open('$d/meta.json'))['breaks_property'])")
   others=$(python3 -c "import json;m=json.load(open('$d/meta.json'));print(' '.join(x for x in (m['what_i_ran'].get('quick_checks_reporting_a_violation_when_first_evaluated') or []) if x!='$prop'))")
+  [ -n "${FINAL_OWN_ONLY:-}" ] && others=""
   git -C /repo apply "$PWD/$d/patch.diff" || { echo "$id: patch does not apply"; continue; }
   res=""
   for p in $prop $others; do
